@@ -289,8 +289,8 @@ func (c *Conversation) processSig(msg []byte) (err error) {
 	return nil
 }
 
-func (c *Conversation) checkedSignatureVerification(mb, sig []byte) error {
-	rest, ok := c.theirKey.Verify(mb, sig)
+func (c *Conversation) checkedSignatureVerification(theirKey PublicKey, mb, sig []byte) error {
+	rest, ok := theirKey.Verify(mb, sig)
 	if !ok {
 		return newOtrError("bad signature in encrypted signature")
 	}
@@ -314,20 +314,20 @@ func verifyEncryptedSignatureMAC(encryptedSig []byte, theirMAC []byte, keys *ake
 	return nil
 }
 
-func (c *Conversation) parseTheirKey(key []byte) (sig []byte, keyID uint32, err error) {
+func (c *Conversation) parseTheirKey(key []byte) (theirKey PublicKey, sig []byte, keyID uint32, err error) {
 	var rest []byte
 	var ok, ok2 bool
-	rest, ok, c.theirKey = ParsePublicKey(key)
+	rest, ok, theirKey = ParsePublicKey(key)
 	sig, keyID, ok2 = ExtractWord(rest)
 	if !(ok && ok2) {
-		return nil, 0, errCorruptEncryptedSignature
+		return nil, nil, 0, errCorruptEncryptedSignature
 	}
 
 	return
 }
 
-func (c *Conversation) expectedMessageHMAC(keyID uint32, keys *akeKeys) []byte {
-	verifyData := appendAll(c.ake.theirPublicValue, c.ake.ourPublicValue, c.theirKey, keyID)
+func (c *Conversation) expectedMessageHMAC(theirKey PublicKey, keyID uint32, keys *akeKeys) []byte {
+	verifyData := appendAll(c.ake.theirPublicValue, c.ake.ourPublicValue, theirKey, keyID)
 	return sumHMAC(keys.m1, verifyData, c.version)
 }
 
@@ -342,16 +342,18 @@ func (c *Conversation) processEncryptedSig(encryptedSig []byte, theirMAC []byte,
 		return err
 	}
 
-	sig, keyID, err := c.parseTheirKey(decryptedSig)
+	theirKey, sig, keyID, err := c.parseTheirKey(decryptedSig)
 	if err != nil {
 		return err
 	}
 
-	mb := c.expectedMessageHMAC(keyID, keys)
-	if err := c.checkedSignatureVerification(mb, sig); err != nil {
+	mb := c.expectedMessageHMAC(theirKey, keyID, keys)
+	if err := c.checkedSignatureVerification(theirKey, mb, sig); err != nil {
 		return err
 	}
 
+	// the peer's long-term key is adopted only once it has signed this exchange
+	c.theirKey = theirKey
 	c.ake.keys.theirKeyID = keyID
 
 	return nil
